@@ -468,14 +468,16 @@ func (bg *Reader) Seek(off Offset) error {
 				case dec = <-bg.working:
 					blk, err := dec.wait()
 					if err == nil {
-						bg.keep(blk)
 						if blk.Base() == off.File {
 							// This decompressor had the block we
-							// wanted.
+							// wanted. It becomes the current block,
+							// so it must not also be cached.
 							bg.current = blk
 							bg.control <- bg.current.NextBase()
 							bg.waiting <- dec
 							dec = nil
+						} else {
+							bg.keep(blk)
 						}
 					}
 				}
